@@ -296,6 +296,13 @@ def scalar_binop(op, l, r, st):
             raise Unsupported("concrete division by zero")
     if isinstance(l, (str, tuple)) and isinstance(r, (str, tuple)) and isinstance(op, ast.Add):
         return l + r
+    if isinstance(op, ast.Mult) and (_isbool(l) != _isbool(r)) and not (is_concrete(l) and is_concrete(r)):
+        # number * bool is a selection, not a multiplication (keeps the VC linear)
+        bv, x = (l, r) if _isbool(l) else (r, l)
+        if is_int_like(x):
+            return z3.If(z3bool(bv), to_int(x), z3.IntVal(0))
+        nx, vx = to_real(x)
+        return mk_fv(z3.And(z3bool(bv), nx) if False else nx, z3.If(z3bool(bv), vx, z3.RealVal(0)))
     if type(op) in _ARITH:
         if is_int_like(l) and is_int_like(r):
             return _ARITH[type(op)](to_int(l), to_int(r))
@@ -306,7 +313,8 @@ def scalar_binop(op, l, r, st):
         nl, vl = to_real(l)
         nr, vr = to_real(r)
         st.notes.append("div")
-        return mk_fv(z3.Or(nl, nr), vl / vr)
+        # float semantics: 0/0 is NaN; x/0 (x != 0) is +-inf, which the encoding leaves as an unspecified real
+        return mk_fv(z3.Or(nl, nr, z3.And(vr == 0, vl == 0)), vl / vr)
     if isinstance(op, ast.Pow) and isinstance(r, int) and r == 2:
         return scalar_binop(ast.Mult(), l, l, st)
     if isinstance(op, (ast.FloorDiv, ast.Mod)) and is_int_like(l) and is_int_like(r):
@@ -696,7 +704,11 @@ class Engine:
     def stmt_For(self, s, st):
         if s.orelse:
             raise Unsupported("for-else")
-        label = self.next_loop_label()
+        # a loop statement keeps its label on every path that reaches it (labels follow the order of first encounter)
+        self._loop_labels = getattr(self, "_loop_labels", {})
+        if id(s) not in self._loop_labels:
+            self._loop_labels[id(s)] = self.next_loop_label()
+        label = self._loop_labels[id(s)]
         self._cur_for = s
         it = self.iter_spec(s.iter, st)
         spec = self.loop_specs.get(label)
